@@ -1,7 +1,10 @@
 (* Property C04 - exactly the JS/CSS of the rendered components is delivered, once, in order.
    Only statements here; proofs live in Deps/Proofs.v.  Model: Deps/Model.v (bytes-level M-model of
    dependencies.py, anchored to the regex pattern strings of Gen/C04.v). *)
-From DJC Require Import Lib.Base Deps.Model Deps.Proofs.
+From DJC Require Import Lib.Base Deps.Model Deps.Proofs Deps.Assemble.
+Import Coq.Strings.String.StringSyntax.
+Local Delimit Scope string_scope with string.
+Local Arguments s2n s%string.
 Local Open Scope N_scope.
 
 (* "Whatever the class is named": the class hash of ANY Python identifier (ASCII letters, digits, "_"
@@ -122,16 +125,127 @@ Theorem no_marker_survives : forall tbl t d tail c x,
 Proof. exact no_marker_survives_lemma. Qed.
 Print Assumptions no_marker_survives.
 
-(* No placeholder survives the substitution, however many data-djc-id attributes the HTML
-   post-processing added to it (the repaired defect 59fa6d8), for every surrounding text free of "_PLACEHOLDER". *)
-Theorem placeholders_all_replaced : forall k css ids slash pre post js_b css_b,
-  forallb is_word6 (match css with Some c => c :: ids | None => ids end) = true ->
-  ph_clean pre -> ph_clean post ->
-  subst_placeholders (pre ++ emit_placeholder k css ids slash ++ post) js_b css_b =
-  (pre ++ (match k with KJs => js_b | KCss => css_b end) ++ post,
-   match k with KJs => true | KCss => false end, match k with KJs => false | KCss => true end).
-Proof. exact placeholder_replaced_lemma. Qed.
+(* EVERY placeholder of a document is replaced by the block of its kind - any number of placeholders of
+   both kinds (the normal page: CSS placeholder in <head>, JS placeholder in <body>), each with an optional
+   data-djc-css attribute, any number of data-djc-id attributes (the repaired defect 59fa6d8) and an optional
+   "/" - for text pieces free of "_PLACEHOLDER"; the two flags say which kinds were found. *)
+Theorem placeholders_all_replaced : forall d tail js_b css_b,
+  ph_pieces_ok d tail ->
+  subst_placeholders (phdoc_bytes d tail) js_b css_b = (phdoc_subst d tail js_b css_b, has_kind KJs d, has_kind KCss d).
+Proof. exact placeholders_all_replaced_lemma. Qed.
 Print Assumptions placeholders_all_replaced.
+
+(* THE ASSEMBLED OUTPUT, document mode (render_dependencies after _process_dep_declarations: substitution at
+   the placeholders, then _insert_js_css_to_default_locations with the masked end-tag search and its offset
+   arithmetic).  For every byte string x that has no "<" after its first byte and does not occur in the
+   document's own text, and blocks that are empty or start with "<" and let no occurrence of x run out of them:
+   the number of occurrences of x in the FINAL BYTES is  copies(JS) * (occurrences in the JS block) +
+   copies(CSS) * (occurrences in the CSS block), where copies(k) = the number of placeholders of kind k, or, with
+   none, 1 if the document has a </body> (JS) / </head> (CSS) end tag and 0 otherwise.  Nothing is written
+   twice, nothing is lost. *)
+Theorem assembled_occurrences : forall x d tail js_b css_b,
+  x <> [] -> lt_free x -> iso x js_b -> iso x css_b -> ph_pieces_ok d tail ->
+  contains x (phdoc_text d tail) = false ->
+  occ x (assemble Document (phdoc_bytes d tail) js_b css_b) =
+  (copies KJs d (phdoc_mask d tail js_b css_b) * occ x js_b + copies KCss d (phdoc_mask d tail js_b css_b) * occ x css_b)%nat.
+Proof. exact assembled_occurrences_lemma. Qed.
+Print Assumptions assembled_occurrences.
+
+(* what "has an end tag" means in `copies`: some position of the searched text matches </head\s*> / </body\s*> *)
+Theorem copies_counts_end_tags : forall k s,
+  found_endtag k s = true <-> has_tag (match k with KCss => EHead | KJs => EBody end) s.
+Proof. exact found_endtag_spec. Qed.
+Print Assumptions copies_counts_end_tags.
+
+(* fragment mode: the output is the document's text followed by the script block; x occurs as often as in it *)
+Theorem fragment_occurrences : forall x d tail js_b css_b,
+  x <> [] -> lt_free x -> iso x js_b -> ph_pieces_ok d tail ->
+  contains x (phdoc_text d tail) = false ->
+  assemble Fragment (phdoc_bytes d tail) js_b css_b = phdoc_text d tail ++ js_b /\
+  occ x (assemble Fragment (phdoc_bytes d tail) js_b css_b) = occ x js_b.
+Proof. exact fragment_occurrences_full_lemma. Qed.
+Print Assumptions fragment_occurrences.
+
+(* END TO END, document mode: render_dependencies (harvest + _process_dep_declarations + assembly), for any
+   serialisation `ser` of the structured tags in which every tag starts with "<" and lets no occurrence of x run
+   out of it.  A document text, marker, ..., text (hypotheses of harvest_emit_roundtrip) whose marker-free text is
+   text, placeholder, ..., text: the call succeeds whenever the pipeline does, and the number of occurrences of x in
+   the final bytes is  copies(JS) * (sum over the tags of the JS list of the occurrences in that tag) + the same for
+   CSS.  Together with the theorems about the tag lists above (inline_once..., media_each_once) this is
+   "exactly once in the final HTML": a string carried by exactly one tag of the list occurs copies(k) times. *)
+Theorem final_html_counts : forall ser tbl d tail pd ptail dd x,
+  clean (doc_text d tail) -> Forall wf_part (doc_parts d) ->
+  doc_text d tail = phdoc_bytes pd ptail -> ph_pieces_ok pd ptail ->
+  process_parts tbl Document (doc_parts d) = Ok dd ->
+  x <> [] -> lt_free x -> ser_ok x ser (d_js dd) -> ser_ok x ser (d_css dd) ->
+  contains x (phdoc_text pd ptail) = false ->
+  exists out, render_deps ser tbl Document (doc_bytes d tail) = Ok out /\
+    let m := phdoc_mask pd ptail (ser_all ser (d_js dd)) (ser_all ser (d_css dd)) in
+    occ x out = (copies KJs pd m * list_sum (map (fun t => occ x (ser t)) (d_js dd)) +
+                 copies KCss pd m * list_sum (map (fun t => occ x (ser t)) (d_css dd)))%nat.
+Proof. exact final_counts_lemma. Qed.
+Print Assumptions final_html_counts.
+
+Theorem final_fragment_counts : forall ser tbl d tail pd ptail dd x,
+  clean (doc_text d tail) -> Forall wf_part (doc_parts d) ->
+  doc_text d tail = phdoc_bytes pd ptail -> ph_pieces_ok pd ptail ->
+  process_parts tbl Fragment (doc_parts d) = Ok dd ->
+  x <> [] -> lt_free x -> ser_ok x ser (d_js dd) ->
+  contains x (phdoc_text pd ptail) = false ->
+  exists out, render_deps ser tbl Fragment (doc_bytes d tail) = Ok out /\
+    out = phdoc_text pd ptail ++ ser_all ser (d_js dd) /\
+    occ x out = list_sum (map (fun t => occ x (ser t)) (d_js dd)).
+Proof. exact final_counts_fragment_lemma. Qed.
+Print Assumptions final_fragment_counts.
+
+Theorem one_tag_carries_it_once : forall x (ser : tok -> str) l1 t0 l2,
+  occ x (ser t0) = 1%nat -> (forall t, In t (l1 ++ l2) -> occ x (ser t) = O) ->
+  list_sum (map (fun t => occ x (ser t)) (l1 ++ t0 :: l2)) = 1%nat.
+Proof. exact sum_single. Qed.
+Print Assumptions one_tag_carries_it_once.
+
+(* NEITHER bookkeeping word survives into the FINAL BYTES (both modes): with blocks that are runs of tags
+   ("<...>") free of the word, and a document text free of it, the assembled output does not contain "_RENDERED" /
+   "_PLACEHOLDER" anywhere - not inside a piece, not across an insertion point - and a second substitution pass
+   finds no placeholder. *)
+Theorem no_marker_word_in_final_bytes : forall t d tail js_b css_b,
+  ph_pieces_ok d tail -> tagged js_b -> tagged css_b ->
+  clean (phdoc_text d tail) -> clean js_b -> clean css_b ->
+  clean (assemble t (phdoc_bytes d tail) js_b css_b).
+Proof. exact no_marker_word_lemma. Qed.
+Print Assumptions no_marker_word_in_final_bytes.
+
+Theorem no_placeholder_in_final_bytes : forall t d tail js_b css_b,
+  ph_pieces_ok d tail -> tagged js_b -> tagged css_b ->
+  ph_clean (phdoc_text d tail) -> ph_clean js_b -> ph_clean css_b ->
+  let out := assemble t (phdoc_bytes d tail) js_b css_b in
+  ph_clean out /\ forall j c, subst_placeholders out j c = (out, false, false).
+Proof. exact no_placeholder_lemma. Qed.
+Print Assumptions no_placeholder_in_final_bytes.
+
+(* THE EMIT SIDE, as an explicit assumption checked on every generated page.  The theorems above start from a
+   document  text, marker, ..., text  (doc_bytes).  That the content a page render hands to render_dependencies
+   HAS this shape - one marker per rendered component instance, written by exactly one call of
+   insert_component_dependencies_comment with that instance's class hash, render id and input hashes, in front
+   of that instance's HTML, the rest free of "_RENDERED" - is NOT proved (rendering is outside this model).  The
+   correspondence run records every call of insert_component_dependencies_comment, cuts the rendered content at the
+   recorded markers and evaluates check_doc / check_phdoc inside Coq: when they return true, the hypotheses of
+   harvest_emit_roundtrip / final_html_counts hold for that very page. *)
+Theorem page_hypotheses_checked : forall content d tail,
+  check_doc (content, d, tail) = true ->
+  content = doc_bytes d tail /\ clean (doc_text d tail) /\ Forall wf_part (doc_parts d).
+Proof. exact check_doc_sound. Qed.
+Print Assumptions page_hypotheses_checked.
+
+Theorem placeholder_hypotheses_checked : forall content d tail,
+  check_phdoc (content, d, tail) = true ->
+  content = phdoc_bytes d tail /\ ph_clean (phdoc_text d tail) /\ ph_pieces_ok d tail.
+Proof. exact check_phdoc_sound. Qed.
+Print Assumptions placeholder_hypotheses_checked.
+
+Theorem serialisation_hypothesis_checked : forall x ser toks, ser_okb x ser toks = true -> ser_ok x ser toks.
+Proof. exact ser_okb_spec. Qed.
+Print Assumptions serialisation_hypothesis_checked.
 
 (* ---------- non-vacuity ---------- *)
 Definition ex_hash1 : str := class_hash [1050; 1085; 1086; 1087; 1082; 1072] [49; 99; 51; 53; 100; 51].  (* Кнопка_1c35d3 *)
@@ -164,10 +278,47 @@ Example placeholder_three_ids :
   = ([67], false, true).
 Proof. vm_compute. reflexivity. Qed.
 
+(* the normal page: CSS placeholder in <head>, JS placeholder (css attribute + two id attributes) in <body>, and a
+   second CSS placeholder written "/>" *)
+Definition ex_phdoc : list (str * phspec) :=
+  [ (s2n "<head>", {| ph_kind := KCss; ph_css := None; ph_ids := []; ph_slash := false |});
+    (s2n "</head><body>x", {| ph_kind := KJs; ph_css := Some [48;97;49;98;50;99]; ph_ids := [[97;48;48;48;48;49]; [97;48;48;48;48;50]]; ph_slash := false |});
+    (s2n "y", {| ph_kind := KCss; ph_css := None; ph_ids := [[97;48;48;48;48;51]]; ph_slash := true |}) ].
 Example placeholder_hypotheses_satisfiable :
-  forallb is_word6 [[48;97;49;98;50;99]; [97;48;48;48;48;49]; [97;48;48;48;48;50]] = true /\
-  ph_clean [60;104;101;97;100;62] /\ ph_clean [60;47;104;101;97;100;62] /\
-  subst_placeholders ([60;104;101;97;100;62] ++ emit_placeholder KJs (Some [48;97;49;98;50;99]) [[97;48;48;48;48;49]; [97;48;48;48;48;50]] false
-                      ++ [60;47;104;101;97;100;62]) [74] [67]
-  = ([60;104;101;97;100;62] ++ [74] ++ [60;47;104;101;97;100;62], true, false).
+  check_phdoc (phdoc_bytes ex_phdoc (s2n "</body>"), ex_phdoc, s2n "</body>") = true /\
+  subst_placeholders (phdoc_bytes ex_phdoc (s2n "</body>")) [74] [67] = (s2n "<head>C</head><body>xJyC</body>", true, true) /\
+  assemble Document (phdoc_bytes ex_phdoc (s2n "</body>")) [74] [67] = s2n "<head>C</head><body>xJyC</body>" /\
+  assemble Fragment (phdoc_bytes ex_phdoc (s2n "</body>")) [74] [67] = s2n "<head></head><body>xy</body>J".
 Proof. repeat split; vm_compute; reflexivity. Qed.
+
+(* end to end with a concrete serialisation: class A (js "k", css "c") twice around class K (js "j") in a page with
+   <head>/<body> and no placeholders; x = "<script>k" (the inline script of A): every hypothesis of final_html_counts
+   holds (boolean forms) and x occurs exactly once in the final bytes; so does the <style> of A and the Media tag
+   of the file both classes share *)
+Definition ser_ex (t : tok) : str :=
+  match t with
+  | TCore => s2n "<script src=""core.js""></script>"
+  | TExec _ => s2n "<script type=""application/json"" data-djc>{}</script>"
+  | TMedia KJs (Some (UMedia u), _) => s2n "<script src=""" ++ u ++ s2n """></script>"
+  | TMedia KCss (Some (UMedia u), r) => s2n "<link href=""" ++ u ++ s2n """ media=""" ++ r ++ s2n """ rel=""stylesheet"">"
+  | TMedia _ _ => s2n "<other>"
+  | TInline KJs c => s2n "<script>" ++ c ++ s2n "</script>"
+  | TInline KCss c => s2n "<style>" ++ c ++ s2n "</style>"
+  end.
+Definition ex_page : list (str * (str * str * str * str)) :=
+  [ (s2n "<head></head><body>", (ex_hash2, [97; 49], [], [])); ([], (ex_hash1, [97; 50], [], [])); ([120], (ex_hash2, [97; 51], [], [])) ].
+Example final_counts_satisfiable :
+  let tail := s2n "</body>" in
+  let xs := [s2n "<script>k"; s2n "<style>c"; s2n "<script src=""x"">"] in
+  check_doc (doc_bytes ex_page tail, ex_page, tail) = true /\
+  check_phdoc (doc_text ex_page tail, [], doc_text ex_page tail) = true /\
+  exists dd out, process_parts ex_tbl Document (doc_parts ex_page) = Ok dd /\
+    forallb (fun x => ser_okb x ser_ex (d_js dd) && ser_okb x ser_ex (d_css dd)
+                      && negb (contains x (doc_text ex_page tail)) && negb (existsb (N.eqb 60) (tl x))) xs = true /\
+    render_deps ser_ex ex_tbl Document (doc_bytes ex_page tail) = Ok out /\
+    map (fun x => occ x out) xs = [1; 1; 1]%nat /\
+    copies KJs [] (doc_text ex_page tail) = 1%nat /\ copies KCss [] (doc_text ex_page tail) = 1%nat.
+Proof.
+  cbv zeta. split; [vm_compute; reflexivity|]. split; [vm_compute; reflexivity|].
+  eexists. eexists. split; [vm_compute; reflexivity|]. repeat split; vm_compute; reflexivity.
+Qed.
